@@ -1845,14 +1845,6 @@ class Interp:
                 comp = self._mk_comp(it, cid, ev.replace(term=subst_term(e, m)), [])
                 if self.api.shape_of(comp) is not None:
                     carr = self.api.as_arr(comp)
-                    if len(esh) == 1 and st is not None:
-                        # rows stored one by one are the rows np.vstack would stack: one spelling for both
-                        try:
-                            stacked = self.api.call_external(self, "numpy.vstack", [comp], {}, st, None)
-                            if stacked.kind == "arr" and stacked.shape is not None and tuple(stacked.shape) == tuple(init.shape):
-                                carr = stacked
-                        except Exception:
-                            pass
                     return init.replace(term=carr.term, labels=init.labels | body_v.labels, has_const=False, const_=None, items=None)
             return None
         if esh is None or not all(d.is_const() and d.c == 1 for d in esh):
